@@ -150,7 +150,8 @@ class BufferedPipe:
                     self._cv.wait(timeout)
                     if timeout is not None:
                         timeout -= time.time() - then
-                        if timeout <= 0.0:
+                        # data may have arrived while we re-acquired the lock
+                        if timeout <= 0.0 and len(self._buffer) == 0:
                             raise PipeTimeout()
 
             # something's in the buffer and we have the lock!
